@@ -252,19 +252,7 @@ class Executor:
                                          f'(value computed at import time; checked natively by the [F] constants check)')
                 return const(mc[f'{mod.name}:{name}'])
             if name in mod.constants:
-                cexpr = mod.constants[name]
-                saved = self.frames
-                self.frames = saved + [Frame(mod, None, None, mod.name)]
-                try:
-                    outs = self.ev(cexpr, st)
-                finally:
-                    self.frames = saved
-                if len(outs) == 1 and not isinstance(outs[0][1], Raise):
-                    v = outs[0][1]
-                    if v.path is None and v.kind in ('any', 'ref'):
-                        v = v.with_path(name)
-                    return v
-                raise Unsupported(f'module constant {name}')
+                return self.eval_constant(mod, mod.constants[name], f'{mod.name}:{name}', name, st)
             if name in mod.imports:
                 m2, attr = mod.imports[name]
                 if attr is None:
@@ -288,6 +276,41 @@ class Executor:
                     'bytearray', 'frozenset'):
             return V('func', py=FuncVal('builtin', name=name))
         raise Unsupported(f'name {name}')
+
+    def eval_constant(self, mod, cexpr, key: str, path: str, st: State) -> V:
+        """Value of a module / class level constant (computed at import time): evaluated on a scratch copy of the
+        state; anything but a scalar / tuple / class / function becomes a stable opaque object."""
+        cache = self.ctx.__dict__.setdefault('_const_cache', {})
+        if key in cache:
+            return cache[key]
+        saved, saved_opq = self.frames, self.ctx.opaque_ok
+        self.frames = saved + [Frame(mod, None, None, mod.name)]
+        self.ctx.opaque_ok = False
+        n_obl = len(self.ctx.obligations)
+        n_hav = set(self.ctx.havocked_calls)
+        try:
+            outs = self.ev(cexpr, st.fork())
+        except Unsupported:
+            outs = None
+        finally:
+            self.frames = saved
+            self.ctx.opaque_ok = saved_opq
+            del self.ctx.obligations[n_obl:]
+            self.ctx.havocked_calls = n_hav
+        v = None
+        if outs is not None and len(outs) == 1 and not isinstance(outs[0][1], Raise):
+            r = outs[0][1]
+            if r.kind in ('none', 'bool', 'int', 'real', 'str', 'bytes', 'tuple', 'class', 'func', 'exccls', 'module'):
+                if r.kind != 'tuple' or all(x.kind in ('none', 'bool', 'int', 'real', 'str', 'bytes', 'class', 'exccls')
+                                            for x in r.py):
+                    v = r
+        if v is None:
+            e = self.ctx.opaque_const('const:' + key)
+            self.ctx.assumptions.add(f'import-time constant {key} is an opaque object (not None)')
+            v = V('ref', Val.oid(e), path=path)
+            # stable identity below the fresh range
+        cache[key] = v
+        return v
 
     def external_name(self, modname: str, attr: str) -> V:
         full = f'{modname}.{attr}'
@@ -394,6 +417,7 @@ class Executor:
         has_call = any(isinstance(n, (ast.Call, ast.Attribute, ast.Subscript)) for n in ast.walk(node))
         outs = []
         if has_call:
+            self.escape_names(node, st)
             st.havoc_heap()
             s2 = st.fork()
             outs.append((s2, ('exc', self.mk_exc('*', node))))
@@ -1093,14 +1117,26 @@ class Executor:
                 return True
         return False
 
+    PURE_BUILTINS = {'max', 'min', 'len', 'str', 'int', 'float', 'abs', 'round', 'sorted', 'isinstance', 'bool',
+                     'repr', 'tuple', 'list', 'dict', 'set', 'sum', 'any', 'all', 'enumerate', 'zip', 'range', 'id',
+                     'hash', 'type', 'getattr', 'hasattr', 'callable', 'format', 'bytes'}
+
     def opaque_expr(self, node, st: State):
-        has_call = any(isinstance(n, ast.Call) for n in ast.walk(node))
+        has_call = any(isinstance(n, ast.Call) and not (isinstance(n.func, ast.Name) and n.func.id in self.PURE_BUILTINS
+                                                         and n.func.id not in st.locals)
+                       for n in ast.walk(node))
         outs = []
         if has_call:
+            self.escape_names(node, st)
             st.havoc_heap()
             outs.append((st.fork(), Raise(self.mk_exc('*', node))))
         outs.append((st, vany(fresh(Val, 'opq'))))
         return outs
+
+    def escape_names(self, node, st: State):
+        for n in ast.walk(node):
+            if isinstance(n, ast.Name) and n.id in st.locals:
+                st.escape(st.locals[n.id])
 
     def _ev(self, node, st: State):
         t = type(node)
@@ -1476,18 +1512,7 @@ class Executor:
         ca = self.repo.class_attr(modname, clsname, attr)
         if ca is not None:
             mod, cexpr = ca
-            saved = self.frames
-            self.frames = saved + [Frame(mod, None, None, f'{mod.name}:{clsname}')]
-            try:
-                outs = self.ev(cexpr, st)
-            finally:
-                self.frames = saved
-            res = []
-            for s, v in outs:
-                if not isinstance(v, Raise) and v.kind in ('any', 'ref') and v.path is None:
-                    v = v.with_path(f'{clsname}.{attr}')
-                res.append((s, v))
-            return res
+            return [(st, self.eval_constant(mod, cexpr, f'{mod.name}:{clsname}.{attr}', f'{clsname}.{attr}', st))]
         if attr == '__class__' and inst is not None:
             return [(st, clsv)]
         if attr == '__name__':
@@ -1740,7 +1765,7 @@ class Executor:
                 r = hooks.on_call_value(self, st, f, args, kwargs, node)
                 if r is not None:
                     return r
-            return self.havoc_call(st, f'<value {f.path or f.kind}>', node)
+            return self.havoc_call(st, f'<value {f.path or f.kind}>', node, args=list(args) + list(kwargs.values()))
         fv: FuncVal = f.py
         hooks = self.ctx.hooks
         keys = self.callee_keys(fv)
@@ -1760,22 +1785,24 @@ class Executor:
             r = models.call_method(self, st, fv.recv, fv.name, args, kwargs, node)
             if r is not None:
                 return r
-            return self.havoc_call(st, keys[0] if keys else fv.name, node)
+            return self.havoc_call(st, keys[0] if keys else fv.name, node, args=[fv.recv] + list(args) + list(kwargs.values()))
         if fv.t == 'lambda':
             return self.call_lambda(st, fv, args, kwargs, node)
         if fv.t == 'ext':
             r = models.call_external(self, st, fv.name, args, kwargs, node)
             if r is not None:
                 return r
-            return self.havoc_call(st, fv.name, node)
+            return self.havoc_call(st, fv.name, node, args=list(args) + list(kwargs.values()))
         if fv.t == 'repo':
             if fv.qual in self.ctx.inline or '*' in self.ctx.inline or getattr(fv, 'closure', None) is not None:
                 return self.inline_call(st, fv, args, kwargs, node)
-            return self.havoc_call(st, fv.qual, node)
+            return self.havoc_call(st, fv.qual, node, args=([fv.self_v] if fv.self_v is not None else []) + list(args) + list(kwargs.values()))
         raise Unsupported(f'call of {fv.t}')
 
-    def havoc_call(self, st: State, what: str, node, may_raise=True):
+    def havoc_call(self, st: State, what: str, node, may_raise=True, args=()):
         self.ctx.havocked_calls.add(what)
+        for a in args:
+            st.escape(a)
         outs = []
         st.havoc_heap()
         if may_raise:
@@ -1912,7 +1939,7 @@ class Executor:
         modname, clsname = clsv.py
         found = self.repo.find_class(modname, clsname)
         if found is None:
-            return self.havoc_call(st, f'{clsname}()', node)
+            return self.havoc_call(st, f'{clsname}()', node, args=list(args) + list(kwargs.values()))
         mod, cdef = found
         qual_cls = f'{mod.name}:{cdef.name}'
         summ = self.ctx.callees.get(qual_cls) or self.ctx.callees.get(f'{qual_cls}.__init__')
@@ -1956,5 +1983,5 @@ class Executor:
         fv = FuncVal('repo', mod=imod, clsdef=icdef, fn=ifn, self_v=obj, qual=qual)
         if qual in self.ctx.inline or '*' in self.ctx.inline:
             return [(s, r if isinstance(r, Raise) else obj) for s, r in self.inline_call(st, fv, args, kwargs, node)]
-        outs = self.havoc_call(st, qual, node)
+        outs = self.havoc_call(st, qual, node, args=[obj] + list(args) + list(kwargs.values()))
         return [(s, r if isinstance(r, Raise) else obj) for s, r in outs]
